@@ -187,6 +187,8 @@ impl Monitor {
                     if Self::weight(u, &ids) >= u.quorum() {
                         self.evidence.insert(t.round);
                     }
+                } else if !Self::valid_qc(u, &t.high_qc) {
+                    self.invalid_shown.insert(t.high_qc.round);
                 }
             }
             Stim::Msg(ConsensusMessage::TC(t)) => {
